@@ -9,7 +9,7 @@ from props.c10 import parse_nodes
 from props import c01
 
 ID = "C03"
-THEOREMS = ["Bufr.C03.C03_column_equal"]
+THEOREMS = ["Bufr.C03.C03_element_bits", "Bufr.C03.C03_section4_bits", "Bufr.C03.C03_characters", "Bufr.C03.C03_raw_value", "Bufr.C03.C03_missing_all_ones", "Bufr.C03.C03_column_bits", "Bufr.C03.C03_refdecode_element", "Bufr.C03.C03_refdecode_column"]
 RULE = ("same dataset space as C01/C02, both compression choices: the reference decoder (Lean spec) must accept the "
         "implementation's Section 4 strictly (no stray bits) and recover exactly the raw pattern chosen for every "
         "element, the strings, associated fields and replication factors; distinct = distinct (kind, width class, "
